@@ -89,22 +89,19 @@ Fixpoint incl_b (a b : list str) : bool :=
   match a with [] => true | x :: a' => str_in x b && incl_b a' b end.
 Definition set_eqb (a b : list str) : bool := incl_b a b && incl_b b a.
 
-Definition judge_unit (c : symtab * symtab * list str * option (list str) * option (list stmt) * nat) : nat :=
-  let '(tb_ford, tb_true, srcs, impl, asts, region) := c in
+Definition judge_unit (c : symtab * symtab * list str * option (list str) * option (list stmt)) : nat :=
+  let '(tb_ford, tb_true, srcs, impl, asts) := c in
   let model_bad := negb (opt_eqb strs_eqb (recorded tb_ford srcs) impl) in
-  let spec_bad :=
-    match asts with
-    | None => false
-    | Some ss =>
-      match impl with
-      | Some names => negb (set_eqb names (calls_of tb_true ss))
-      | None => true
-      end
-    end in
-  (* the harness renderer must agree with the Coq renderer, and the ASTs must be well formed *)
-  let render_bad :=
-    match asts with
-    | None => false
-    | Some ss => negb (strs_eqb (map mask_quotes srcs) (map render_stmt ss) && forallb wf_stmt ss)
-    end in
-  if render_bad then 8 + verdict model_bad spec_bad 0 else verdict model_bad spec_bad region.
+  match asts with
+  | None => verdict model_bad false 0
+  | Some ss =>
+    (* the harness renderer must agree with the Coq renderer, and the ASTs must be well formed *)
+    if negb (strs_eqb (map mask_quotes srcs) (map render_stmt ss) && forallb wf_stmt ss) then 1024
+    else
+      let spec_bad :=
+        match impl with
+        | Some names => negb (set_eqb names (calls_of tb_true ss))
+        | None => true
+        end in
+      verdict model_bad spec_bad (region_of tb_ford tb_true ss)
+  end.
